@@ -3,7 +3,7 @@ package main
 // Ctx: one verification run — loaded packages, SSA, contract table.
 
 import (
-	"strconv"
+	"crypto/sha256"
 	"fmt"
 	"go/ast"
 	"go/constant"
@@ -13,6 +13,7 @@ import (
 	"path/filepath"
 	"regexp"
 	"sort"
+	"strconv"
 	"strings"
 
 	"golang.org/x/tools/go/packages"
@@ -30,40 +31,41 @@ type compiledSpec struct {
 }
 
 type Ctx struct {
-	repo      string
-	fset      *token.FileSet
-	reg       *Registry
-	prog      *ssa.Program
-	pkgs      []*packages.Package
-	ssaPkgs   map[string]*ssa.Package
-	typesPkgs map[string]*types.Package
-	files     []*SpecFile
-	contracts map[string]*FuncContract
-	bound     map[string]bool
-	specs     map[string]*SpecFun
-	specFile  map[string]*SpecFile
-	compiled  map[string]*compiledSpec
-	specOrder []string
-	axioms    []*Axiom
-	lemmas    []*Lemma
-	ghosts    map[string]GhostDecl
-	props     map[string][]string
-	globals   map[string]int
-	typeIDs   map[string]int
-	fnIDs     map[*ssa.Function]int
-	fnByID    map[int]*ssa.Function
-	dropped   []*regexp.Regexp
+	repo                                   string
+	fset                                   *token.FileSet
+	reg                                    *Registry
+	prog                                   *ssa.Program
+	pkgs                                   []*packages.Package
+	ssaPkgs                                map[string]*ssa.Package
+	typesPkgs                              map[string]*types.Package
+	files                                  []*SpecFile
+	contracts                              map[string]*FuncContract
+	bound                                  map[string]bool
+	specs                                  map[string]*SpecFun
+	specFile                               map[string]*SpecFile
+	compiled                               map[string]*compiledSpec
+	specOrder                              []string
+	axioms                                 []*Axiom
+	lemmas                                 []*Lemma
+	ghosts                                 map[string]GhostDecl
+	props                                  map[string][]string
+	globals                                map[string]int
+	typeIDs                                map[string]int
+	typeIDUsed                             map[int]bool
+	fnIDs                                  map[*ssa.Function]int
+	fnByID                                 map[int]*ssa.Function
+	dropped                                []*regexp.Regexp
 	needSidx, needSlt, needBits, needFloat bool
-	floatLits map[string]string
-	ctrFile   map[*FuncContract]*SpecFile
-	assumptionsUsed map[string]bool
-	globalVals      map[string]string // assumed values of dependencies' package-level string variables
-	curFile *SpecFile
-	binds   map[string]types.Type // interface key -> concrete type
-	implFuns map[string]bool
-	cardSorts map[string]bool
-	codecs map[string]bool
-	goHandler func(g *FnGen, s *State, x *ssa.Go, key string) bool
+	floatLits                              map[string]string
+	ctrFile                                map[*FuncContract]*SpecFile
+	assumptionsUsed                        map[string]bool
+	globalVals                             map[string]string // assumed values of dependencies' package-level string variables
+	curFile                                *SpecFile
+	binds                                  map[string]types.Type // interface key -> concrete type
+	implFuns                               map[string]bool
+	cardSorts                              map[string]bool
+	codecs                                 map[string]bool
+	goHandler                              func(g *FnGen, s *State, x *ssa.Go, key string) bool
 }
 
 var defaultDropped = []string{
@@ -372,16 +374,37 @@ func (c *Ctx) typeID(t types.Type) int {
 	if id, ok := c.typeIDs[k]; ok {
 		return id
 	}
-	id := len(c.typeIDs) + 1
+	// an id that depends on the type alone (not on the order in which types are first met): 40 bits of a hash,
+	// with linear probing should two types ever collide
+	id := stableID(k)
+	for c.typeIDUsed[id] {
+		id++
+	}
+	if c.typeIDUsed == nil {
+		c.typeIDUsed = map[int]bool{}
+	}
+	c.typeIDUsed[id] = true
 	c.typeIDs[k] = id
 	return id
+}
+
+func stableID(key string) int {
+	h := sha256.Sum256([]byte(key))
+	v := 0
+	for i := 0; i < 5; i++ {
+		v = v<<8 | int(h[i])
+	}
+	return v + 1
 }
 
 func (c *Ctx) fnID(fn *ssa.Function) int {
 	if id, ok := c.fnIDs[fn]; ok {
 		return id
 	}
-	id := len(c.fnIDs) + 1
+	id := stableID("fn:" + c.fnKey(fn))
+	for c.fnByID[id] != nil {
+		id++
+	}
 	c.fnIDs[fn] = id
 	c.fnByID[id] = fn
 	return id
@@ -961,10 +984,10 @@ type preItem struct {
 
 type Prelude struct {
 	baseNative string
-	post  string // heap-lemma instances of the last For() call (must follow the query's declarations)
-	base  string
-	items []preItem
-	names []string // all spec symbols
+	post       string // heap-lemma instances of the last For() call (must follow the query's declarations)
+	base       string
+	items      []preItem
+	names      []string // all spec symbols
 }
 
 func (c *Ctx) specSymbolsIn(text string) []string {
@@ -1045,7 +1068,7 @@ func (c *Ctx) prelude() *Prelude {
 		fmt.Fprintf(common, "(declare-fun enc_%s (%s) Str)\n(declare-fun dec_%s (Str) %s)\n(assert (forall ((v %s)) (! (= (dec_%s (enc_%s v)) v) :pattern ((enc_%s v)))))\n", n, srt, n, srt, srt, n, n, n)
 	}
 	p := &Prelude{base: b.String() + common.String(), baseNative: bn.String() + common.String()}
-	for _, n := range c.specOrder {
+	for _, n := range c.canonicalSpecOrder() {
 		def := c.compiled[n].def
 		var uses []string
 		for _, u := range c.specSymbolsIn(def) {
@@ -1412,4 +1435,38 @@ func (c *Ctx) valueTypeInv(v string, t types.Type, depth int) string {
 		}
 	}
 	return "true"
+}
+
+// canonicalSpecOrder: the compiled spec functions, each after the spec functions its definition mentions, ties broken by
+// name - independent of the order in which the generator first needed them.
+func (c *Ctx) canonicalSpecOrder() []string {
+	names := append([]string{}, c.specOrder...)
+	sort.Strings(names)
+	known := map[string]bool{}
+	for _, n := range names {
+		known[n] = true
+	}
+	var out []string
+	state := map[string]int{}
+	var visit func(n string)
+	visit = func(n string) {
+		if state[n] != 0 {
+			return
+		}
+		state[n] = 1
+		txt := c.compiled[n].def + "\n" + c.compiled[n].absDef
+		deps := c.specSymbolsIn(txt)
+		sort.Strings(deps)
+		for _, d := range deps {
+			if d != n && known[d] {
+				visit(d)
+			}
+		}
+		state[n] = 2
+		out = append(out, n)
+	}
+	for _, n := range names {
+		visit(n)
+	}
+	return out
 }
